@@ -26,6 +26,7 @@ def run(cx, chk):
     chk.rule("C20.R2", "room_left returns max_cost.load() - (used + cost)")
     chk.rule("C20.R3", "update*/remove* report exactly whether the key was tracked (and its recorded cost)")
     chk.rule("C20.R5", "fill_sample: unchanged when already long enough; otherwise only pushes (key, cost) pairs read from key_costs, re-testing len >= samples after every push")
+    chk.rule("C20.R6", "clear empties the tracker unconditionally: every path clears key_costs and sets used to 0 (costs are signed, so `used == 0` does not mean nothing is tracked)")
     chk.rule("C20.R4", "increment/update/remove delegate to the *_hashed_key twin with hash_key(k)")
     for cfg, F in cx.cfgs():
         methods = [f for f in F.doc["fns"] if f["kind"] == "AssocFn" and (F.impl_of(f) or {}).get("self_head") == ADT]
@@ -53,6 +54,24 @@ def run(cx, chk):
         reports(cx, chk, cfg, F)
         siblings(cx, chk, cfg, F)
         fill_sample(cx, chk, cfg, F)
+        clear_total(cx, chk, cfg, F)
+
+
+def clear_total(cx, chk, cfg, F):
+    f = F.find(ADT + "::clear")
+    ok = True
+    n = 0
+    for p in cx.paths(cfg, f["path"]):
+        n += 1
+        cleared = [e for e in p.events if e["ev"] == "call" and e.get("hm") == "clear" and e["recv"][2][-1:] == ("key_costs",)]
+        zeroed = [e for e in p.events if e["ev"] == "store" and self_field(e["loc"], "used") and e["val"][0] == "const" and str(e["val"][2]) == "0"]
+        if not cleared or not zeroed:
+            ok = False
+            chk.violation("C20.R6", "clear|partial", "a path of SampledLFU::clear returns without %s: entries stay tracked after clear" % (
+                "clearing key_costs" if not cleared else "resetting used"), f["span"]["file"], f["span"]["lo"], f["q"], None, cfg)
+            break
+    if ok:
+        chk.ob("C20.R6", cfg + ":clear", "key_costs.clear() and used = 0 on all %d paths" % n)
 
 
 def self_field(loc, name):
